@@ -22,7 +22,9 @@ type misuseCtx struct {
 var txStates = []string{"active-rw", "active-ro", "committed", "rolledback", "closed-rw", "closed-ro"}
 
 // pageStates prepares a page (in a writable transaction unless stated).
-var pageStates = []string{"clean", "new-empty", "new-written", "dirty", "flushed", "freed", "freed-new", "of-finished-tx", "of-ro-tx"}
+var pageStates = []string{"clean", "new-empty", "new-written", "dirty", "flushed", "freed", "freed-new", "of-finished-tx", "of-ro-tx",
+	// pages that carry a private write buffer: after Load, after a partial SetBytes (old and new page)
+	"loaded", "partial", "new-partial"}
 
 func (s *Session) mkTx(state string) (*txfile.Tx, error) {
 	ro := strings.HasSuffix(state, "-ro")
@@ -273,14 +275,14 @@ func (s *Session) MisuseMatrix() MisuseStats {
 		{"SetBytes(oversize)", func(p *txfile.Page) error { return p.SetBytes(make([]byte, ps+1)) }, noWrite("err:param")},
 		{"Flush", func(p *txfile.Page) error { return p.Flush() }, func(state string) []string {
 			e := noWrite("")(state)
-			if state == "dirty" && e[0] == "ok" {
+			if (state == "dirty" || state == "partial") && e[0] == "ok" {
 				return []string{"ok", "err:oom"} // flushing an overwritten page needs an overwrite page: a full file may refuse
 			}
 			return e
 		}},
 		{"Free", func(p *txfile.Page) error { return p.Free() }, func(state string) []string {
 			switch state {
-			case "dirty", "new-written":
+			case "dirty", "new-written", "partial", "new-partial":
 				return []string{"err:invalidop"}
 			}
 			return noWrite("")(state)
@@ -314,10 +316,13 @@ func (s *Session) MisuseMatrix() MisuseStats {
 					return err
 				}
 				switch state {
-				case "new-empty", "new-written", "freed-new":
+				case "new-empty", "new-written", "freed-new", "new-partial":
 					p, err = tx.Alloc()
 					if err != nil {
 						return err
+					}
+					if state == "new-partial" {
+						return p.SetBytes(make([]byte, 10))
 					}
 					if state == "new-written" {
 						return p.SetBytes(Render(Content{ID: 5, S1: 5, S2: 5}, ps))
@@ -332,6 +337,10 @@ func (s *Session) MisuseMatrix() MisuseStats {
 					return err
 				}
 				switch state {
+				case "loaded":
+					return p.Load()
+				case "partial":
+					return p.SetBytes(make([]byte, 10))
 				case "dirty":
 					return p.SetBytes(Render(Content{ID: written[0], S1: 5, S2: 5}, ps))
 				case "flushed":
